@@ -28,7 +28,7 @@ Fault plans are enumerated by the property modules with single_plans() / pair_pl
 shape, then every pair k1 < k2 where k2 ranges over the calls of the run that already suffered the
 first fault (failed commit then failed rollback, failed rollback then failed close, ...).
 """
-import os, sys, sqlite3, threading, shutil
+import os, sys, sqlite3, threading, shutil, weakref, gc, itertools
 from vf import core
 from vf.seams import dbapi
 
@@ -40,14 +40,29 @@ def sqlite_exc(kind):
     if kind == 'interface': return sqlite3.InterfaceError('vf injected')
     raise AssertionError(kind)
 
-REGISTRY = []          # every controlled connection created in this process since the last World.reset()
+# every controlled connection created in this process since the last World.reset(): (serial, weak reference, thread).
+# Weak references on purpose: a connection Pony has forgotten must be free to die (its destructor closes it), as it
+# would in an application - e.g. after a failed rollback followed by a failed close.
+REGISTRY = []
+_serial = itertools.count(1)
+
+def register(con):
+    con.vf_serial = next(_serial)
+    con.vf_thread = threading.get_ident()
+    REGISTRY.append((con.vf_serial, weakref.ref(con), con.vf_thread))
+
+class ExcSummary(object):
+    """what is kept of the exception a program ended with (the object itself would keep frames, and through them
+    connections, alive)"""
+    def __init__(self, e):
+        self.cls, self.name, self.text = type(e), type(e).__name__, str(e)[:300]
+    def __repr__(self): return '%s(%r)' % (self.name, self.text)
 
 class FxConnection(dbapi.VfConnection):
     """VfConnection + registration + a post-commit hook (fault after the real commit happened)."""
     def __init__(self, *a, **k):
         dbapi.VfConnection.__init__(self, *a, **k)
-        self.vf_thread = threading.get_ident()
-        REGISTRY.append(self)
+        register(self)
     def commit(self):
         r = dbapi.VfConnection.commit(self)
         h = dbapi.ENV.handler
@@ -68,11 +83,11 @@ class Monitor(object):
         self.obs = []              # (k, dump): committed rows seen by an independent connection before call k, when changed
         self.last = None
         self.raw = None
-        self.close_attempts = {}   # connection -> number of close() calls (any thread, any phase)
+        self.close_attempts = {}   # connection serial -> number of close() calls (any thread, any phase)
         self.other_calls = 0
     def __call__(self, kind, sql, args, con):
         if kind == 'close' and con is not None:
-            self.close_attempts[con] = self.close_attempts.get(con, 0) + 1
+            self.close_attempts[con.vf_serial] = self.close_attempts.get(con.vf_serial, 0) + 1
         if not self.armed or threading.get_ident() != self.thread:
             self.other_calls += 1
             return
@@ -125,10 +140,10 @@ def summarize(events):
     return sum(1 for e in events if e[0] == 'ack'), sum(1 for e in events if e[0] == 'start')
 
 class Exec(object):
-    __slots__ = ('n', 'calls', 'fired', 'exc', 'events', 'snaps', 'obs', 'final', 'notes', 'conns', 'mon', 'hygiene')
+    __slots__ = ('n', 'calls', 'fired', 'exc', 'events', 'snaps', 'obs', 'final', 'notes', 'mon', 'hygiene')
     def acked(self): return summarize(self.events)[0]
     def started(self): return summarize(self.events)[1]
-    def exc_name(self): return None if self.exc is None else type(self.exc).__name__
+    def exc_name(self): return None if self.exc is None else self.exc.name
     def commit_issued_since(self, pos):
         return any(kind == 'commit' for kind, _ in self.calls[pos:])
     def kinds(self): return [c[0] for c in self.calls]
@@ -207,12 +222,14 @@ class World(object):
         pool = prov.pool
         if getattr(pool, 'con', None) is not None:
             forced.append('pool connection'); pool.con = None
-        for con in REGISTRY:
-            if con.vf_pid == os.getpid():
-                try: sqlite3.Connection.close(con)
-                except Exception: pass
+        for serial, ref, thread in REGISTRY:
+            con = ref()
+            if con is not None and con.vf_pid == os.getpid(): self.force_close(con)
         del REGISTRY[:]
         return forced
+    def force_close(self, con):
+        try: sqlite3.Connection.close(con)
+        except Exception: pass
     def reset(self):
         forced = self.hygiene()
         shutil.copyfile(self.pristine, self.path)
@@ -234,12 +251,12 @@ class World(object):
         px = Progress(mon, snapshots)
         x.exc = None
         try: program(self, px)
-        except Exception as e: x.exc = e
+        except Exception as e: x.exc = ExcSummary(e)
+        if any(kind == 'close' for _, kind, _ in mon.fired): gc.collect()    # forgotten connections die as they would in an application
         mon.stop()
         x.n, x.calls, x.fired, x.obs, x.mon = mon.n, mon.calls, mon.fired, mon.obs, mon
         x.events, x.snaps, x.notes = px.events, px.snaps, px.notes
         x.final = self.dump()
-        x.conns = list(REGISTRY)
         return x
 
     def crash_run(self, program, k, after=False):
